@@ -391,7 +391,8 @@ func main() {
 	if err != nil {
 		die("%v", err)
 	}
-	re2 := regexp.MustCompile(`js\.Global\(\)\.Set\("([^"]+)",\s*js\.FuncOf\(([A-Za-z_][A-Za-z0-9_]*)\)\)`)
+	// js.Global().Set("name", js.FuncOf(fn)) or js.FuncOf(wrapper(fn)): the innermost identifier is the callback
+	re2 := regexp.MustCompile(`js\.Global\(\)\.Set\("([^"]+)",\s*js\.FuncOf\((?:[A-Za-z_][A-Za-z0-9_]*\()?([A-Za-z_][A-Za-z0-9_]*)\)?\)\)`)
 	var gl []string
 	for _, m := range re2.FindAllStringSubmatch(string(wm), -1) {
 		gl = append(gl, fmt.Sprintf("(%s, %s)", coqBytes(m[1]), coqBytes(m[2])))
